@@ -228,6 +228,13 @@ func c08Next(versioned bool) func(g *prog.Gen, idx int, hist []*prog.Step) *prog
 			}
 			return o
 		case r < 62:
+			if versioned && g.R.Chance(25) {
+				// the copy source is deleted (a delete marker) or written again: a part copy from a deleted key finds no key
+				if g.R.Chance(60) {
+					return &prog.Op{Kind: "deleteObject", Caller: "root", B: b, K: "src"}
+				}
+				return &prog.Op{Kind: "putObject", Caller: "root", B: b, K: "src", Put: &prog.PutSpec{Data: []prog.Seg{{Seed: 9800 + idx + n, Off: 0, Len: 2500}}}, Valid: true}
+			}
 			u := pick()
 			return &prog.Op{Kind: "listParts", Caller: caller, B: b, K: u.key, UpID: u.id}
 		case r < 66:
